@@ -12,6 +12,7 @@ THEOREMS = ['Tbox.C12.' + t for t in [
     'C12_in_order_once', 'C12_no_response_stuck', 'C12_nothing_after_close',
     'C12_single_disconnect', 'C12_peer_stream', 'C12_close_after_full_delivery',
     'C12_write_error', 'C12_half_close_counterexample', 'C12_written_once', 'C12_head_of_line', 'C12_commit_after_gone',
+    'C12_handler_commits_once', 'C12_scripted_admissible', 'C12_scripted_pipelining',
     'C12_respond_roundtrip', 'C12_untouched_context_answers_404', 'C12_url_codec_roundtrip', 'C12_url_roundtrip_counterexample',
     'C12_nothing_after_close_counterexample_unpatched', 'C12_closing_response_lost_unpatched']]
 SOURCES = [
@@ -45,6 +46,8 @@ TRUSTED = ['models lean/TboxModel/C12/Model.lean (parser, feed loop) and Pipelin
            'and compared byte for byte (client output, str= field of every delivered request); the status table is regenerated from common.cpp/.h',
            'write errors are injected by interposing write() in the harness (EPIPE on the server side of the connection) and by real '
            'EPIPE/ECONNRESET (client closes before a commit / without reading a large response)',
+           'request handlers are scripts interpreted by the harness (props/C12/harness.cpp runLevel) and by the model (Pipeline.runChain); '
+           'a handler that throws leaves the library with unbalanced callback counters (its destructors assert), the harness leaks the objects of that case',
            'ops method/version compare StringToMethod/StringToHttpVer with a fixed reference table (Model.stdMethods/stdVersions)',
            'method/version tables are regenerated from common.cpp on every run (GenTables.lean)',
            'kernel/socket behaviour (a small write is accepted whole; send-complete follows a burst of writes) is observed, not modelled',
@@ -59,7 +62,12 @@ RULE = ('cases from props/C12/plugin.py: (a) parser level — pipelines of 1-4 g
         'the client closing at a random point (also in the same loop pass as a completion, before a completion = EPIPE, without '
         'reading a large response), half-closing, an injected permanent write failure, responses of up to 1 MB (partial writes), '
         'responses with arbitrary status / header map / body and contexts dropped untouched, compared byte for byte at the client; '
-        '(c) the standard method/version names against a fixed reference table. '
+        'SCRIPTED HANDLER CHAINS (3 handlers; per request: next() 0/1/2 times at any level, set the response at several levels, keep the '
+        'context, throw, server.stop()/cleanup() from inside the handler; fixed families + random scripts); '
+        '(c) the standard method/version names against a fixed reference table; (d) boundary families: Content-Length 0 / exactly the '
+        'buffered amount / one more with every cut around the body end, the header terminator cut at every pair of places, header lines '
+        'and targets up to 70 kB, 1500 headers, Content-Length digit strings at the int/size_t limits, chunked bodies (not implemented '
+        'by the server), percent-escapes cut at the end of the target, empty keys. '
         'non-trivial = the model run delivers at least one request out of >= 2 segments, or parks/flushes a response, or fails/closes, '
         'or sees a peer close or a large response; '
         'distinct = distinct op text')
@@ -118,8 +126,10 @@ def pre_lean(repo, lean):
 METHODS = ['GET', 'HEAD', 'PUT', 'POST', 'TRACE', 'OPTIONS', 'DELETE']
 VERSIONS = ['HTTP/1.1', 'HTTP/1.1', 'HTTP/1.1', 'HTTP/1.0', 'HTTP/2.0']
 TARGETS = ['/', '/index.html', '/a/b/c', '/a%20b', '/p;x=1', '/p;x=1;y=2', '/p?q=1', '/p?q=1&r=2', '/p?q=', '/p#frag', '/p;a=b?c=d#e',
-           '/%41%42', '/%ff%00', '/a%2fb.c', '/p?k%3d=v%26w', '/p#%41', '/p;a%3b=%25', '/x?k=%3d&k=2', '/p?b=1&a=2', '/p;z=%7e', '/?a=b', '/#', '/a?x=1;y=2', '/a#b?c=d', '/a%4']
-BAD_TARGETS = ['x', '', '/p;', '/p;a', '/p?', '/p?a', '/p?=b', '/%zz', '/%4z', '/p;a=b=c', '/p?a=1&&b=2', 'http://h/p', '*']
+           '/%41%42', '/%ff%00', '/a%2fb.c', '/p?k%3d=v%26w', '/p#%41', '/p;a%3b=%25', '/x?k=%3d&k=2', '/p?b=1&a=2', '/p;z=%7e', '/?a=b', '/#', '/a?x=1;y=2', '/a#b?c=d', '/a%4',
+           '/a%', '/%', '/+', '/a+b', '/p?a+b=c+d', '/p?a=%', '/p?a=%4', '/p?a=b&c=%', '/p;a=%4', '/p#%', '/p#%4', '/p?a==', '/p?a=b#', '/p;a=b?', '/p?%3d=1',
+           '/p?a=1&a=2', '/p;k=1;k=2', '/p?z=1&y=2&x=3', '/p?a=', '/p;a=', '/%2F', '/.', '/..', '//', '/a/', '/%25%32%35']
+BAD_TARGETS = ['x', '', '/p;', '/p;a', '/p?', '/p?a', '/p?=b', '/p;=v', '/p?&', '/p?a=b&', '/p?&a=b', '/p;a=b;', '/p?a', '/p?a=b=c', '/p?%=1', '/p?a=%g1', '%2f', '/%zz', '/%4z', '/p;a=b=c', '/p?a=1&&b=2', 'http://h/p', '*']
 HDRS = [('Host', 'example.com'), ('Accept', '*/*'), ('X-A', 'b'), ('X-A', 'c'), ('Connection', 'keep-alive'), ('Connection', 'close'),
         ('Connection', 'Keep-Alive'), ('Connection', 'x, close'), ('connection', 'close'), ('User-Agent', 'a b  c'), ('X-Colon', 'a:b'),
         ('X Sp', 'v'), ('Content-Type', 'text/plain')]
@@ -232,6 +242,75 @@ HALF_FP = 'srv-halfclose-responses-lost'
 HALF_OP = 'chalfS' if any(fp == HALF_FP for (fp, _) in vlib.load_findings('C12')) else 'chalf'
 
 
+CHAIN_SCRIPTS = ['n/b41', 'n/n/b42', 'n.n/b41.k/-', 'b41.n/n/b42', 'n/k', 'k.n/b41', 'n/n/n', 'n.n/n.n/b43', '-', 'b-', 'n/-/b44',
+                 'k.k', 'n/k.n/k', 'b41.b42', 'n.b45/b46']
+ABORT_SCRIPTS = ['t', 'b41.t', 'n/t', 'k.t', 'n/n/t', 'n/b41/t', 't.b41', 'n.t/b47',
+                 's', 'c', 'b41.s', 'b41.c', 'n/c.b43', 's.n/b41', 'c.n/b41', 'k.s', 'k.c', 'n/n/s', 's.c', 'c.s', 's.t', 'c.t']
+
+
+def gen_script(rng):
+    """what the three handlers do for one request (see harness: n k t s c b<hex>)"""
+    r = rng.random()
+    if r < 0.45: return rng.choice(CHAIN_SCRIPTS)
+    if r < 0.60: return rng.choice(ABORT_SCRIPTS)
+    levels = []
+    for _ in range(rng.choice([1, 2, 3])):
+        acts = [rng.choice(['n', 'n', 'n', 'k', 'b' + hx(rbody(rng)), 'b-', 'n', 'k', 't', 's', 'c'][:9 if rng.random() < 0.8 else 11])
+                for _ in range(rng.choice([0, 1, 1, 2, 3]))]
+        levels.append('.'.join(acts) or '-')
+    return '/'.join(levels)
+
+
+def gen_boundary_case(rng):
+    """rare-boundary families: Content-Length against what is buffered, the header terminator cut everywhere,
+    huge header lines / many headers / long targets, chunked bodies (not implemented by the server: treated as
+    'no Content-Length'), Content-Length digit strings at the size_t limits"""
+    fam = rng.choice(['cl', 'cl', 'term', 'term', 'big', 'chunk', 'lenlimit'])
+    nxt = b'GET /next HTTP/1.1\r\nContent-Length: 0\r\n\r\n'
+    if fam == 'cl':
+        L = rng.choice([0, 1, 2, 5, 17])
+        body = bytes(rng.choice(b'ab\r\n:G') for _ in range(L))
+        cl = max(0, L + rng.choice([-1, 0, 0, 1, 1, 2]))
+        head = ('POST /b HTTP/1.1\r\nContent-Length: %d\r\n\r\n' % cl).encode()
+        stream = head + body + (nxt if rng.random() < 0.7 else b'')
+        # cuts around the end of the headers and around the declared / the real end of the body
+        marks = sorted({len(head) - 1, len(head), len(head) + 1, len(head) + cl - 1, len(head) + cl, len(head) + cl + 1,
+                        len(head) + L, len(head) + L + 1})
+        marks = [m for m in marks if 0 < m < len(stream)]
+        cuts = sorted(rng.sample(marks, min(len(marks), rng.choice([1, 2, 3]))))
+    elif fam == 'term':
+        base = rng.choice(BASE[:3] + [b'GET /t HTTP/1.0\r\nA: b\r\n\r\n', b'PUT /u HTTP/1.1\r\nContent-Length: 1\r\nX: y\r\n\r\nZ' + nxt])
+        stream = base
+        t = stream.find(b'\r\n\r\n')
+        region = [c for c in range(t - 1, t + 6) if 0 < c < len(stream)]
+        cuts = sorted(set(rng.sample(region, min(len(region), rng.choice([2, 3, 4])))))
+    elif fam == 'big':
+        kind = rng.choice(['line', 'many', 'target', 'value-spaces'])
+        if kind == 'line': hdrs = 'X-Long: ' + 'v' * rng.choice([1023, 1024, 1025, 4096, 65535, 65536, 70000]) + '\r\n'
+        elif kind == 'many': hdrs = ''.join('H%d: %d\r\n' % (i, i) for i in range(rng.choice([100, 500, 1500])))
+        elif kind == 'value-spaces': hdrs = 'X-S:' + ' ' * rng.choice([255, 4096]) + 'v' + ' ' * rng.choice([0, 300]) + '\r\n'
+        else: hdrs = ''
+        tgt = '/' + 'a' * rng.choice([2000, 9000]) if kind == 'target' else '/big'
+        stream = ('GET %s HTTP/1.1\r\n%sContent-Length: 2\r\n\r\nok' % (tgt, hdrs)).encode() + nxt
+        cuts = sorted(rng.sample(range(1, len(stream)), rng.choice([0, 1, 3])))
+    elif fam == 'chunk':
+        size = rng.choice(['5', '05', '0005', '5;ext=1', '5 ; x', 'ffffffffffffffff', '10000000000000000', 'FFFFFFFFFFFFFFFFF', '-1', '0x5', '5\r', ''])
+        stream = ('POST /c HTTP/1.1\r\nTransfer-Encoding: chunked\r\n\r\n%s\r\nhello\r\n0\r\n\r\n' % size).encode() + nxt
+        cuts = sorted(rng.sample(range(1, len(stream)), rng.choice([0, 1, 2, 4])))
+    else:
+        v = rng.choice(['18446744073709551613', '18446744073709551614', '18446744073709551615', '18446744073709551616', '9223372036854775807',
+                        '9223372036854775808', '4294967295', '4294967296', '2147483647', '2147483648', '00000000000000000000000000000003',
+                        '1' + '0' * 30, '0', '00', '3'])
+        stream = ('PUT /l HTTP/1.1\r\nContent-Length: %s\r\n\r\nabc' % v).encode() + nxt
+        cuts = sorted(rng.sample(range(1, len(stream)), rng.choice([0, 1, 2])))
+    segs, prev = [], 0
+    for c in cuts + [len(stream)]:
+        if c > prev: segs.append(stream[prev:c]); prev = c
+    if rng.random() < 0.25:
+        return ['srv', 'sync 0 6f6b', 'sync 1 6f6b'] + ['seg ' + hx(x) for x in segs]
+    return ['feed ' + hx(x) for x in segs]
+
+
 def gen_server_case(rng):
     k = rng.choice([1, 2, 2, 3, 3, 4, 5])
     closing_at = rng.randrange(k + 2) if rng.random() < 0.6 else None   # may be beyond the pipeline = none
@@ -241,9 +320,15 @@ def gen_server_case(rng):
         bad = rng.choice(['len', 'method', 'target', 'nocolon', 'flip']) if i == bad_at else None
         reqs.append(gen_request(rng, declared=True, closing=(closing_at == i), bad=bad))
     ops = ['srv']
-    sync = [i for i in range(k) if rng.random() < 0.4]
-    for i in sync:
-        ops.append('sync %d %s' % (i, hx(rbody(rng))))
+    sync = []                      # requests whose context is NOT kept (answered when the handler chain returns)
+    for i in range(k):
+        r = rng.random()
+        if r < 0.25:
+            sync.append(i); ops.append('sync %d %s' % (i, hx(rbody(rng))))
+        elif r < 0.60:
+            spec = gen_script(rng)
+            ops.append('script %d %s' % (i, spec))
+            if 'k' not in [a[0] for lv in spec.split('/') for a in lv.split('.')]: sync.append(i)
     stream = b''.join(reqs)
     segs = split_stream(rng, stream, rng.choice(['one', 'one', 'rand', 'edge', 'two']))
     if len(segs) > 12: segs = [b''.join(segs[:-11])] + segs[-11:]
@@ -352,9 +437,22 @@ def gen(rng, tier):
     m = 350 if tier == "quick" else 10000
     for _ in range(m):
         yield gen_server_case(rng)
-    yield ['srv', 'doneR 0 200 - 00', 'rel 0', 'doneR', 'rel', 'chalf', 'chalf', 'wfail', 'cdone 0 00', 'dcloseN 0 5 1', 'cclose', 'chalf', 'wfail']
-    hs = hx('GET /%d HTTP/1.1\r\nContent-Length: 0\r\n\r\n')
+    # Content-Length 0 / exactly what is buffered / one more, with the body boundary cut at every place
+    for L, d in [(0, 0), (0, 1), (1, 0), (1, 1), (1, -1), (3, 0), (3, 1), (3, -1)]:
+        b = ('POST /e HTTP/1.1\r\nContent-Length: %d\r\n\r\n' % max(0, L + d)).encode() + b'x' * L + b'GET /n HTTP/1.1\r\nContent-Length: 0\r\n\r\n'
+        yield ['feed ' + hx(b)]
+        t = b.find(b'\r\n\r\n')
+        for c in range(t, min(len(b), t + 4 + L + 3)):
+            yield ['feed ' + hx(b[:c]), 'feed ' + hx(b[c:])]
+            yield ['feed ' + hx(b[:c]), 'feed ' + hx(b[c:c + 1]), 'feed ' + hx(b[c + 1:])] if c + 1 < len(b) else ['feed ' + hx(b)]
+    for _ in range(250 if tier == "quick" else 6000):
+        yield gen_boundary_case(rng)
     three = ''.join('GET /%d HTTP/1.1\r\nContent-Length: 0\r\n\r\n' % i for i in range(3))
+    yield ['srv', 'script 0 n', 'script 0 k', 'script 1 x', 'script 1 n/n/n/n', 'script 1 b0', 'script 1 n..k', 'script 1 ', 'script', 'sync 1 00', 'script 1 k']
+    for sc in CHAIN_SCRIPTS + ABORT_SCRIPTS:
+        yield ['srv', 'script 1 ' + sc, 'seg ' + hx(three), 'done 1 31', 'done 0 30', 'done 2 32', 'seg ' + hx(three)]
+        yield ['srv', 'sync 0 61', 'script 1 ' + sc, 'sync 2 63', 'seg ' + hx(three), 'done 1 31']
+    yield ['srv', 'doneR 0 200 - 00', 'rel 0', 'doneR', 'rel', 'chalf', 'chalf', 'wfail', 'cdone 0 00', 'dcloseN 0 5 1', 'cclose', 'chalf', 'wfail']
     yield ['srv', 'seg ' + hx(three), 'doneR 1 201 582d41:62,:76 6f6b', 'rel 0', 'doneR 2 1000 - 00', 'doneR 2 299 zz 00', 'doneR 2 299 41:42:43 00',
            'doneR 2 299 436f6e74656e742d4c656e677468:3939 626f6479']
     yield ['srv', 'seg ' + hx(three), 'done 1 31', HALF_OP, 'done 0 30', 'done 2 32', 'seg ' + hx(three)]
@@ -368,7 +466,7 @@ def nontrivial(ops, model_lines):
     tags = ' '.join(l for l in model_lines if l.startswith('B '))
     nseg = sum(1 for o in ops if o.startswith(('feed ', 'seg ')))
     if 'req-' in tags and nseg >= 2: return 1
-    if any(t in tags for t in ('parked', 'wrote-flush', 'wrote-closing', 'parse-fail', 'seg-after-close', 'peer-close', 'doneN', 'doneR', 'rel-', 'half-close', 'wfail', 'epipe')): return 1
+    if any(t in tags for t in ('parked', 'wrote-flush', 'wrote-closing', 'parse-fail', 'seg-after-close', 'peer-close', 'doneN', 'doneR', 'rel-', 'half-close', 'wfail', 'epipe', 'h-')): return 1
     return None
 
 
